@@ -112,7 +112,7 @@ NA = {}
 
 def hook_commits():
     out = subprocess.run(["git", "-C", "/repo", "log", "--format=%H %s"], capture_output=True, text=True).stdout
-    return [l.split()[0] for l in out.splitlines() if "verif hooks" in l][::-1]
+    return [l.split()[0] for l in out.splitlines() if " verif hook" in l][::-1]
 
 m = {
  "version": 1,
